@@ -385,28 +385,7 @@ func (p *parser) _recover() bool {
 		save := p._stack
 
 		for len(p._stack) >= 1 {
-			state := p._stack.Peek(0).State
-
-			for {
-				action, ok := _Find(_actions, state, int32(ERROR))
-				if !ok {
-					break
-				}
-
-				if action < 0 {
-					prod := -action
-					rule := _rules[int(prod)]
-					state, _ = _Find(_goto, state, rule)
-					continue
-				}
-
-				state = action
-
-				_, ok = _Find(_actions, state, int32(p._la))
-				if !ok {
-					break
-				}
-
+			if p._canShiftError() {
 				p._qla = p._la
 				p._qlasym = p._lasym
 				p._la = ERROR
@@ -423,6 +402,33 @@ func (p *parser) _recover() bool {
 
 		p._stack = save
 		p._readToken()
+	}
+}
+
+// _canShiftError simulates the parser with ERROR as the lookahead on a copy of
+// the state stack: it follows reductions until ERROR is shifted, and reports
+// whether the state reached by that shift accepts the current lookahead.
+func (p *parser) _canShiftError() bool {
+	states := make([]int32, len(p._stack))
+	for i, item := range p._stack {
+		states[i] = item.State
+	}
+
+	for {
+		action, ok := _Find(_actions, states[len(states)-1], int32(ERROR))
+		if !ok {
+			return false
+		}
+
+		if action >= 0 {
+			_, ok = _Find(_actions, action, int32(p._la))
+			return ok
+		}
+
+		prod := -action
+		states = states[:len(states)-int(_termCounts[int(prod)])]
+		state, _ := _Find(_goto, states[len(states)-1], _rules[int(prod)])
+		states = append(states, state)
 	}
 }
 
